@@ -85,9 +85,10 @@ def gen_cases(sh):
                 'plain': list(qcheck.tables_upto(sp_['rows'], maxrows)) + [qcheck.long_table(sp_['rows'], 2)],
                 'named': list(qcheck.tables_upto(sp_['nrows'], maxrows + 1)) + [qcheck.long_table(sp_['nrows'], 3)],
                 'join': list(qcheck.tables_upto(sp_['jrows'], maxrows)) + [qcheck.long_table(sp_['jrows'][:4], 2)]}
+        tabs['join_empty_partner'] = [T for T in qcheck.tables_upto([[sp_['names'][0] + 'v', 'w'], ['x', 'y']], 3)]
         for kind, q in sp_['qs'][lo:hi]:
             for names in ([sp_['names'], sp_['names'][::-1]] if kind == 'named' else [None]):
-                for B in (sp_['Bs'] if kind == 'join' else [None]):
+                for B in (sp_['Bs'] if kind == 'join' else ([[[]], [[], ['q', 'p']], [['q', 'p'], []], [[], []]] if kind == 'join_empty_partner' else [None])):
                     for A in tabs[kind]:
                         yield q, A, B, names, None
     elif src == 'c07':
